@@ -37,6 +37,8 @@ mod worker;
 pub use cache_prepopulate::prepopulate as prepopulate_cache;
 #[cfg(nomt_verif)]
 pub(crate) use seek::verif as seek_verif;
+#[cfg(nomt_verif)]
+pub(crate) use page_set::verif as page_set_verif;
 pub use page_walker::UpdatedPage;
 #[cfg(nomt_verif)]
 pub use page_walker::verif as page_walker_verif;
